@@ -10,6 +10,9 @@
 //
 // The two bookkeeping queries of dbVersion.GetVersionInfo (`type='update'` settings and `SHOW TABLES`) are
 // answered by the fake itself (Script.Versions / Script.Tables) and are logged like every other query.
+// They can be made slow and/or failing (Script.VersionDelay / VersionErr / TablesErr / VersionErrN) and are counted
+// (ReaderDB.Bookkeeping): "a second request arrives while the first one's version lookup is still under way, and that
+// lookup fails" is scripted with these. Answer.Delay makes any other query slow. Zero values = none of this.
 package fakes12
 
 import (
@@ -22,6 +25,7 @@ import (
 	"strings"
 	"sync"
 	"sync/atomic"
+	"time"
 
 	"github.com/metrico/cloki-config/config"
 	"github.com/metrico/qryn/reader/model"
@@ -31,6 +35,8 @@ import (
 type Answer struct {
 	Cols []string         // column names; when empty, derived from the first row ("c0", "c1", …)
 	Rows [][]driver.Value // a value may be any Go value database/sql can assign (map[string]string, []string, [][]any …)
+
+	Delay time.Duration // QueryContext first waits this long (ends early with ctx.Err() when the query context is cancelled)
 
 	QueryErr error // QueryContext fails with this error (no rows object at all)
 	Block    bool  // QueryContext blocks until its context is cancelled, then returns ctx.Err()
@@ -58,6 +64,12 @@ type Script struct {
 	Match    func(query string) (Answer, bool)
 	Versions [][2]string // rows of the `type='update'` settings query (name, unix-seconds as string)
 	Tables   []string    // rows of SHOW TABLES
+
+	// the two bookkeeping queries of dbVersion.GetVersionInfo (zero values: answered at once, never failing)
+	VersionDelay time.Duration // each bookkeeping query first waits this long (cancellable like Answer.Delay)
+	VersionErr   error         // the `type='update'` settings query fails with this error
+	TablesErr    error         // SHOW TABLES fails with this error
+	VersionErrN  int           // n > 0: only the first n bookkeeping queries that would fail do fail; 0 = all of them
 }
 
 // ReaderDB is one scripted database: a database/sql handle over the scripted driver, wrapped as model.ISqlxDB.
@@ -68,6 +80,8 @@ type ReaderDB struct {
 	mtx    sync.Mutex
 	script Script
 	nq     int
+	nbk    int // bookkeeping queries received since the last SetScript
+	nbkErr int // bookkeeping queries failed since the last SetScript
 	log    []string
 	open   int64 // rows objects opened and not yet closed
 }
@@ -95,6 +109,15 @@ func (sConn) CheckNamedValue(*driver.NamedValue) error { return nil }
 
 func (c sConn) QueryContext(ctx context.Context, q string, args []driver.NamedValue) (driver.Rows, error) {
 	a := c.owner.answer(q)
+	if a.Delay > 0 { // outside owner.mtx: other queries are answered meanwhile
+		t := time.NewTimer(a.Delay)
+		select {
+		case <-t.C:
+		case <-ctx.Done():
+			t.Stop()
+			return nil, ctx.Err()
+		}
+	}
 	if a.Block {
 		<-ctx.Done()
 		return nil, ctx.Err()
@@ -171,12 +194,21 @@ func NewReaderDB() *ReaderDB {
 	return r
 }
 
-// SetScript installs a script and restarts its answer counter (the SQL log is kept; see ResetLog).
+// SetScript installs a script and restarts its answer counter and the bookkeeping counters (Bookkeeping, VersionErrN);
+// the SQL log is kept (see ResetLog).
 func (r *ReaderDB) SetScript(s Script) {
 	r.mtx.Lock()
 	defer r.mtx.Unlock()
 	r.script = s
-	r.nq = 0
+	r.nq, r.nbk, r.nbkErr = 0, 0, 0
+}
+
+// Bookkeeping is the number of bookkeeping queries (`type='update'` settings, SHOW TABLES) received since the last
+// SetScript (ResetLog does not touch it). A query counts when it ARRIVES, before its VersionDelay.
+func (r *ReaderDB) Bookkeeping() int {
+	r.mtx.Lock()
+	defer r.mtx.Unlock()
+	return r.nbk
 }
 
 // Log returns a copy of every SQL text received so far.
@@ -206,14 +238,14 @@ func (r *ReaderDB) answer(q string) Answer {
 		for _, v := range r.script.Versions {
 			a.Rows = append(a.Rows, []driver.Value{v[0], v[1]})
 		}
-		return a
+		return r.bookkeeping(a, r.script.VersionErr)
 	}
 	if isShowTables(q) {
 		a := Rows([]string{"name"})
 		for _, t := range r.script.Tables {
 			a.Rows = append(a.Rows, []driver.Value{t})
 		}
-		return a
+		return r.bookkeeping(a, r.script.TablesErr)
 	}
 	if r.script.Match != nil {
 		if a, ok := r.script.Match(q); ok {
@@ -229,6 +261,17 @@ func (r *ReaderDB) answer(q string) Answer {
 		i = len(r.script.Answers) - 1
 	}
 	return r.script.Answers[i]
+}
+
+// bookkeeping (r.mtx held): counts the query, applies VersionDelay and the scripted failure
+func (r *ReaderDB) bookkeeping(a Answer, err error) Answer {
+	r.nbk++
+	a.Delay = r.script.VersionDelay
+	if err != nil && (r.script.VersionErrN <= 0 || r.nbkErr < r.script.VersionErrN) {
+		r.nbkErr++
+		a.QueryErr = err
+	}
+	return a
 }
 
 // ---- model.ISqlxDB over the scripted handle
